@@ -99,7 +99,7 @@ def _stream(seed, n):
     return out[:n]
 
 
-message = st.tuples(gens.length(1100), st.integers(0, 1 << 16), st.sampled_from(["rand", "00", "ff", "80"])).map(
+message = st.tuples(st.one_of(st.sampled_from([0, 32, 1, 31, 33, 55, 56, 64, 65]), gens.length(1100)), st.integers(0, 1 << 16), st.sampled_from(["rand", "00", "ff", "80"])).map(
     lambda t: (_stream(t[1], t[0]) if t[2] == "rand" else bytes.fromhex(t[2]) * t[0]).hex())
 
 
